@@ -292,7 +292,10 @@ def replayStep (cfg : RCfg) (w : WCtx) (all final : List Rec) (r : Rep) (e : TEv
         else fail r s!"read: recorded offset={o} conn={c}, model offset={s'.offset} conn={s'.connOff}"
     else if cls == "kafka1" then
       if r.d.isEmpty then { r0 with s := s0, pendOOR := true } else fail r "OffsetOutOfRange after messages"
-    else if cls == "canceled" then { r0 with s := rstep cfg s0 .ctxCanceled }
+    else if cls == "canceled" then
+      -- the messages of the round that were handed on before the context was cancelled
+      if !(goodCutB all final q r.d) then failProp r s!"cancelled round at {q}: delivered {r.d.map (·.1)}: not an initial segment of the stored records"
+      else { r0 with s := rstep cfg s0 (.ctxCanceled r.d) }
     else if cls == "unknowncodec" then { r0 with s := rstep cfg s0 .unknownCodec }
     else match kcode cls with
       | some code => { r0 with s := rstep cfg s0 (.kerr code none) }
